@@ -506,7 +506,122 @@ def get_table():
     t = _get_table()
     t["cross_kind"] = probe_cross_kind()
     t["chain_personal_skip"] = probe_chain_skip()
+    t["child_kinds"] = child_kinds_table(t["slots"])
     return t
+
+
+# ---------------------------------------------------------------------------------------------------
+# which node classes occur under which attribute (`WellKinded` of Props/C18_reach.lean) and: slot order = source order
+
+CHILD_KIND_PROBES = [
+    ('query Q($a: Int = 1 @d, $b: [Int!]! = [1, 2.5, "s", """b""", true, null, E, {k: 1, l: [2], m: {n: E}}], $c: Float = 1.5, $c2: String = "s", '
+     '$c3: Boolean = true, $c4: Int = null, $c5: N = {k: 1}, $c6: E = A) @d(x: $a, y: [$a, 1], z: {k: $a, l: [$a]}) '
+     '{ al: f(a: $a, b: [$a, [1]], c: {k: $a, l: [$a], m: {n: 1}}, d: 1.5, e: "s", g: true, h: null, i: E) @d { g } ...F @d ... on T @d { a } ... @d { a } ... { a } } '
+     'mutation M { a } subscription S { a } { a } '
+     'fragment F($w: [Int] = [1] @d) on T @d { a ...G } fragment G on T { a }', {"experimental_fragment_variables": True}),
+    ('schema @d(x: 1) { query: Q mutation: M subscription: S } extend schema @d { mutation: M } extend schema @d '
+     '"sd" scalar S @d extend scalar S @d '
+     '"td" type T implements I & J @d(x: [1, {k: 2}]) { "fd" f("ad" x: [Int!]! = [1] @d, y: N = {x: 1}): [Int!]! @d g: Int } '
+     'extend type T implements K @d { h: Int } extend type T @d '
+     '"id" interface I @d { f(x: Int): Int } extend interface I @d { g: Int } extend interface I @d '
+     '"ud" union U @d = T | V extend union U @d = W extend union U @d '
+     '"ed" enum E @d { "vd" A @d B } extend enum E @d { C } extend enum E @d '
+     '"nd" input N @d { "xd" x: Int = 1 @d y: [N!] = [{x: 1}] z: Boolean = true w: E = A u: Float = 1.5 t: String = "s" r: Int = null } '
+     'extend input N @d { v: Int } extend input N @d '
+     '"dd" directive @d("ad" x: Int = 1 @e, y: [N]) on FIELD | QUERY', {"allow_type_system": True}),
+]
+
+
+def _probe_documents():
+    from py_gql.lang import parse
+    out = []
+    for _, text, kw in WITNESSES:
+        out.append((text, {k: v for k, v in kw.items() if k != "no_location"}))
+    out += CHILD_KIND_PROBES
+    fx = VISITOR.parents[3] / "tests" / "fixtures"
+    for name, kw in (("kitchen-sink.graphql", {}), ("schema-kitchen-sink.graphql", {"allow_type_system": True})):
+        f = fx / name
+        if f.exists():
+            out.append((f.read_text(), kw))
+    return [parse(text, **kw) for text, kw in out]
+
+
+def _node_children(n):
+    """(attr, [child nodes]) of every attribute holding nodes, in `__slots__` order"""
+    import py_gql.lang.ast as A
+    for a in type(n).__slots__:
+        if a in ("source", "loc"):
+            continue
+        v = getattr(n, a, None)
+        if isinstance(v, A.Node):
+            yield a, [v]
+        elif isinstance(v, list) and v and all(isinstance(x, A.Node) for x in v):
+            yield a, v
+
+
+def child_kinds_table(slots):
+    """[((kind, attr), [concrete child classes])]: the classes the annotations of ast.py admit at that attribute (abstract
+       bases expanded) UNION the classes the real parser produces there on the probe documents. Side check: in every probe
+       document the non-Name children of a node, read in `__slots__` order, are in SOURCE order (`loc`), which is what the
+       specification `Spec.events` and the sibling-order theorems mean by `attribute order`."""
+    import inspect
+    import typing
+    import py_gql.lang.ast as A
+    classes = node_classes()
+    sub = subclass_table()
+    ck = {}
+
+    def mentions(t, acc):
+        if inspect.isclass(t) and issubclass(t, A.Node):
+            acc.add(t.__name__)
+        for a in typing.get_args(t):
+            mentions(a, acc)
+        return acc
+
+    for kind, attrs in slots:
+        try:
+            hints = typing.get_type_hints(classes[kind].__init__)
+        except Exception:  # noqa
+            hints = {}
+        for a in attrs:
+            if a != "loc" and a in hints:
+                conc = set()
+                for c in mentions(hints[a], set()):
+                    conc |= sub.get(c, set())
+                if conc:
+                    ck.setdefault((kind, a), set()).update(conc)
+
+    def go(n):
+        last = -1
+        for a, cs in _node_children(n):
+            for c in cs:
+                ck.setdefault((type(n).__name__, a), set()).add(type(c).__name__)
+                if type(c).__name__ != "Name":
+                    start = c.loc[0] if c.loc else None
+                    if start is not None:
+                        if start < last:
+                            raise Shape("%s.%s: a child starts at %d before a child of an earlier slot (%d): `__slots__` order "
+                                        "is not the source order" % (type(n).__name__, a, start, last))
+                        last = start
+                go(c)
+    for doc in _probe_documents():
+        go(doc)
+    return sorted((k, sorted(v)) for k, v in ck.items())
+
+
+def ill_kinded(node, child_kinds):
+    """the (kind, attr, child kind) triples of `node` outside the child-kind table (hypothesis `WellKinded`)"""
+    ck = child_kinds if isinstance(child_kinds, dict) else {tuple(k): set(v) for k, v in child_kinds}
+    bad = []
+    stack = [node]
+    while stack:
+        n = stack.pop()
+        for a, cs in _node_children(n):
+            for c in cs:
+                if type(c).__name__ not in ck.get((type(n).__name__, a), ()):
+                    bad.append((type(n).__name__, a, type(c).__name__))
+                stack.append(c)
+    return bad
 
 
 def _get_table():
@@ -627,6 +742,11 @@ def to_lean(t):
     L.append("")
     L.append("def table : Table := { methods := methods, visit := visitDispatch, dispatchers := dispatchers, slots := slots, crossKind := crossKind }")
     L.append("")
+    L.append("/-- (kind, attribute) ↦ the concrete node classes that occur there: annotations of `lang/ast.py` (abstract bases expanded)")
+    L.append("    ∪ what the real parser produces on the probe documents of C18_table.py (hypothesis `WellKinded` of Props/C18_reach.lean) -/")
+    L.append("def childKinds : List ((String × String) × List String) := [")
+    L.append(",\n".join("  ((%s, %s), %s)" % (_s(k[0]), _s(k[1]), _lst(_s(x) for x in v)) for k, v in t.get("child_kinds", [])))
+    L.append("]\n")
     L.append("/-! witness documents, parsed by the real parser on this run (attribute `loc` dropped, ids = pre-order numbers) -/")
     for name, text, kw in WITNESSES:
         L.append("/-- `%s` -/" % text.replace("\n", " "))
